@@ -49,7 +49,7 @@ theorem applyPairs_modules : ∀ (pairs : List (List Nat × List Nat)) (imps add
 theorem applyPairs_names : ∀ (pairs : List (List Nat × List Nat)) (imps added : List Imp) (nm : Bool)
     (imps' added' : List Imp) (nm' : Bool),
     applyPairs pairs imps added nm = .ok (imps', added', nm') →
-    ∀ j ∈ imps', j ∈ imps ∨ (j.module = provider ∧ ∃ p ∈ pairs, j.name = p.2) := by
+    ∀ j ∈ imps', j ∈ imps ∨ (j.module = provider ∧ ∃ p ∈ pairs, expectedSig? p.1 = none ∧ j.name = p.2) := by
   intro pairs
   induction pairs with
   | nil =>
@@ -62,7 +62,7 @@ theorem applyPairs_names : ∀ (pairs : List (List Nat × List Nat)) (imps added
     obtain ⟨orig, new⟩ := p
     obtain ⟨i1, a1, n1, hs, hr⟩ := applyPairs_cons_ok h
     rcases ih _ _ _ _ _ _ hr j hj with hj1 | ⟨hm, p, hp, hn⟩
-    · rcases stepOne_ok hs with ⟨ps, rs, k, _, rfl, _, _⟩ | ⟨_, _, rfl, _, _⟩
+    · rcases stepOne_ok hs with ⟨ps, rs, k, _, rfl, _, _⟩ | ⟨hnone, _, rfl, _, _⟩
       · exact Or.inl (List.mem_filter.mp hj1).1
       · simp only [List.mem_map] at hj1
         obtain ⟨i0, hi0, rfl⟩ := hj1
@@ -70,7 +70,7 @@ theorem applyPairs_names : ∀ (pairs : List (List Nat × List Nat)) (imps added
         by_cases hapi : i0.isApi orig = true
         · right
           rw [if_pos hapi]
-          refine ⟨?_, (orig, new), List.mem_cons_self, rfl⟩
+          refine ⟨?_, (orig, new), List.mem_cons_self, hnone, rfl⟩
           simp only [Imp.isApi, Bool.and_eq_true, beq_iff_eq] at hapi
           exact hapi.1
         · rw [if_neg hapi]; exact Or.inl hi0
